@@ -440,8 +440,25 @@ def section_handover(c, model_chk, model):
                          'a section body can be entered without the section taking the name of the file being read now (%s): a section opened again from '
                          'another file reports its errors under the first file\'s name' % ' && '.join(stale.cond()[-3:]))
                 return
+            # whatever can report in the parent's name after the body was read (the section's validation callback, a
+            # diagnostic of the parser itself) must find the parent at the line where the section ends
+            late = None
+            for tr2 in model.transitions(s, LB):
+                r2 = tr2.calls('cfg_parse_internal')
+                if not r2:
+                    continue
+                i2 = tr2.events.index(r2[0])
+                ups = [k for k, e in enumerate(tr2.events) if k > i2 and e.kind == 'store' and e.field == 'line' and sym.root_of(e.addr) == ('p', 'cfg')]
+                for k, e in enumerate(tr2.events):
+                    if k > i2 and e.kind == 'call' and (e.name.startswith('indirect:') or e.name == 'cfg_error') and e.args and e.args[0] == ('p', 'cfg') \
+                            and not any(u < k for u in ups):
+                        late = late or e
             if not down:
                 chk.fail('R6.5', 'section-line-down', c.where(rec[0].ins), 'the section context does not inherit the current line before its body is parsed')
+            elif late is not None:
+                chk.fail('R6.5', 'section-line-late', c.where(late.ins), 'after a section body was read, %s is called with the parent context before the parent has taken over '
+                         'the line number: a diagnostic issued there names the line of the opening brace instead of the line the section ends on'
+                         % (late.name.replace('indirect:', 'the callback ') + '()'))
             elif not up:
                 chk.fail('R6.5', 'section-line-up', c.where(rec[0].ins), 'the parent does not take over the line number after the section body was parsed')
             else:
